@@ -745,7 +745,7 @@ class AttackGraph():
             logger.debug('Remove attacker "%s" with id:%d.',
                 attacker.name,
                 attacker.id)
-        for node in attacker.reached_attack_steps:
+        for node in list(attacker.reached_attack_steps):
             attacker.undo_compromise(node)
         self.attackers.remove(attacker)
         if not isinstance(attacker.id, int):
